@@ -1,2 +1,170 @@
-From Coq Require Import ZArith.
-From YV Require Import model.AtomicObs.
+(* C19 — yaclib_std::atomic computes exactly what std::atomic computes.
+
+   Statements only; proofs are in proofs/AtomicProofs.v.  They are about gen/Gen_fiber_atomic.v, which
+   tools/translate_fiber_atomic.py regenerates from the fiber atomics and the fault wrapper of the tree under
+   check on every run, and about model/AtomicStd.v (the std::atomic contract).
+
+   Vocabulary:  [impl_of BFiber k] / [impl_of BThread k] : the overload set of yaclib_std::atomic<T> for T of kind k
+   (integral, bool, pointer, floating, atomic_flag) in the FIBER / THREAD backend; an operation maps
+   semantics -> T -> spurious choice -> stored value -> arg1 -> arg2 to Some (new stored, returned, expected')
+   or None (undefined);  [std_of k] : what std::atomic<T> does;  [ok T x] : x is a value of T;
+   [S] with [strict S = false] : the compiled behaviour (signed overflow of plain arithmetic wraps);
+   arbitrary [S] : also the strict abstract machine where it is undefined. *)
+From Coq Require Import ZArith List Bool.
+Import ListNotations.
+Open Scope Z_scope.
+From YV Require Import model.AtomicCSem model.AtomicStd gen.Gen_fiber_atomic model.AtomicObs proofs.AtomicProofs.
+
+(* Every operation std::atomic<T> has exists on yaclib_std::atomic<T> (both cv-overloads) in the FIBER backend and,
+   on all representable values, returns the same value, leaves the same stored value and the same [expected]. *)
+Theorem c19_fiber_operations :
+  forall k o vol f, std_of k o = Some f ->
+  exists g, impl_of BFiber k o vol = Some g /\
+  forall S T spur v a1 a2, strict S = false -> no_guard o T v a1 -> ty_of k T = true ->
+    ok T v = true -> ok (arg_ty T o) a1 = true -> ok T a2 = true ->
+    g S T spur v a1 a2 = f S T spur v a1 a2.
+Proof. exact fiber_operations. Qed.
+Print Assumptions c19_fiber_operations.
+
+(* The same for the THREAD backend (the wrapper around std::atomic<T>), for every reading of the arithmetic. *)
+Theorem c19_thread_operations :
+  forall k o vol f, std_of k o = Some f ->
+  exists g, impl_of BThread k o vol = Some g /\
+  forall S T spur v a1 a2, True -> no_guard o T v a1 -> ty_of k T = true ->
+    ok T v = true -> ok (arg_ty T o) a1 = true -> ok T a2 = true ->
+    g S T spur v a1 a2 = f S T spur v a1 a2.
+Proof. exact thread_operations. Qed.
+Print Assumptions c19_thread_operations.
+
+(* The signed-overflow guard, explicitly: under the strict reading of C++ the integral FIBER operations are defined
+   and equal to std whenever the mathematical result of the arithmetic fits the signed type
+   ([no_signed_overflow]; trivially true for unsigned and narrow types and for the non-arithmetic operations).
+   The overflow case itself is [c19_fiber_operations] (compiled reading: it wraps like std) and
+   Properties_C19_ub.v (strict reading: defined only if the code computes in the unsigned counterpart). *)
+Theorem c19_fiber_int_strict_guarded :
+  forall o vol f, std_of KInt o = Some f ->
+  exists g, impl_of BFiber KInt o vol = Some g /\
+  forall S T spur v a1 a2, True -> no_signed_overflow o T v a1 -> ty_of KInt T = true ->
+    ok T v = true -> ok (arg_ty T o) a1 = true -> ok T a2 = true ->
+    g S T spur v a1 a2 = f S T spur v a1 a2.
+Proof. exact fiber_int_strict_guarded. Qed.
+Print Assumptions c19_fiber_int_strict_guarded.
+
+(* Lifted to every single-threaded history (operations of std::atomic<T> with representable arguments, fences):
+   step by step the same returned values, stored values and expected values as std::atomic. *)
+Theorem c19_sequences_fiber :
+  forall k S T cs v0, strict S = false -> ty_of k T = true -> ok T v0 = true -> Forall (call_ok k T) cs ->
+  run_backend BFiber k S T cs v0 = run_backend BStd k S T cs v0.
+Proof. exact fiber_sequences. Qed.
+Print Assumptions c19_sequences_fiber.
+
+Theorem c19_sequences_thread :
+  forall k S T cs v0, ty_of k T = true -> ok T v0 = true -> Forall (call_ok k T) cs ->
+  run_backend BThread k S T cs v0 = run_backend BStd k S T cs v0.
+Proof. exact thread_sequences. Qed.
+Print Assumptions c19_sequences_thread.
+
+(* ... and the reference run is total (so the two equalities say something for every such history). *)
+Theorem c19_std_run_total :
+  forall k S T cs v0, ty_of k T = true -> ok T v0 = true -> Forall (call_ok k T) cs ->
+  exists l, run_backend BStd k S T cs v0 = Some l /\ length l = length cs.
+Proof. exact std_run_total. Qed.
+Print Assumptions c19_std_run_total.
+
+(* An injected spurious failure of compare_exchange_weak follows the std contract: returns false, stores the
+   current value into expected, changes nothing. *)
+Theorem c19_weak_spurious :
+  forall b k o vol g S T v e d,
+  b <> BStd -> has_cas k = true -> is_weak o = true -> impl_of b k o vol = Some g ->
+  strict S = false -> ty_of k T = true -> ok T v = true -> ok T e = true -> ok T d = true ->
+  g S T true v e d = Some (v, 0, v).
+Proof. exact backend_weak_spurious. Qed.
+Print Assumptions c19_weak_spurious.
+
+(* Without injection the weak form is the plain compare-and-exchange ... *)
+Theorem c19_weak_not_spurious :
+  forall b k o vol g S T v e d,
+  b <> BStd -> has_cas k = true -> is_weak o = true -> impl_of b k o vol = Some g ->
+  strict S = false -> ty_of k T = true -> ok T v = true -> ok T e = true -> ok T d = true ->
+  g S T false v e d = if v =? e then Some (d, 1, e) else Some (v, 0, v).
+Proof. exact backend_weak_not_spurious. Qed.
+Print Assumptions c19_weak_not_spurious.
+
+(* ... and compare_exchange_strong never fails spuriously, whatever the fault layer would inject. *)
+Theorem c19_strong_never_spurious :
+  forall b k o vol g S T spur v e d,
+  b <> BStd -> has_cas k = true -> is_strong o = true -> impl_of b k o vol = Some g ->
+  strict S = false -> ty_of k T = true -> ok T v = true -> ok T e = true -> ok T d = true ->
+  g S T spur v e d = if v =? e then Some (d, 1, e) else Some (v, 0, v).
+Proof. exact backend_strong_never_spurious. Qed.
+Print Assumptions c19_strong_never_spurious.
+
+(* Memory orders: whatever orders std::atomic accepts for an operation, every call the wrapper makes on the
+   implementation underneath gets orders that implementation accepts (a load is never release / acq_rel, a store
+   never acquire / consume / acq_rel, a failure order never release / acq_rel); every wrapper function is covered. *)
+Theorem c19_wrapper_orders_valid :
+  forall o vol f ms, In (o, vol, f) wrap_orders -> std_orders_ok o ms = true ->
+  exists cs, f ms = Some cs /\ forallb call_orders_ok cs = true.
+Proof. exact wrap_orders_valid. Qed.
+Print Assumptions c19_wrapper_orders_valid.
+
+Theorem c19_wrapper_orders_complete :
+  forallb (fun k => forallb (fun o => forallb (fun vol =>
+     match wrapped_of k (fun _ _ => None) o vol with Some _ => has_entry o vol | None => true end) [false; true]) all_opn)
+     [KInt; KBool; KPtr; KFlt; KFlag] = true.
+Proof. exact wrap_orders_complete. Qed.
+Print Assumptions c19_wrapper_orders_complete.
+
+(* The fences of the FIBER backend touch nothing; the value constructor stores its argument. *)
+Theorem c19_fences : forall sg v, fence_of BFiber sg v = v.
+Proof. exact fiber_fences. Qed.
+Print Assumptions c19_fences.
+
+Theorem c19_constructor :
+  forall k S T spur v a1 a2, ty_of k T = true -> ok T a1 = true -> fiber_init S T spur v a1 a2 = Some (a1, 0, a1).
+Proof. exact init_stores. Qed.
+Print Assumptions c19_constructor.
+
+(* Non-vacuity: concrete runs (the same sequences the harness executes on the real library). *)
+Example c19_witness_fetch_and_pre_post_inc :
+  run_backend BFiber KInt (sem_eval false) (CInt 32 true)
+    [Call FAnd false false 3 0; Call PreInc false false 0 0; Call PostInc false false 0 0; Call PostDec true false 0 0] 6
+  = Some [(2, 6, 3); (3, 3, 0); (4, 3, 0); (3, 4, 0)].
+Proof. vm_compute. reflexivity. Qed.
+
+Example c19_witness_signed_wrap :
+  run_backend BFiber KInt (sem_eval false) (CInt 32 true) [Call FAdd false false 1 0; Call SubA true false 1 0] 2147483647
+  = Some [(-2147483648, 2147483647, 1); (2147483647, 2147483647, 1)].
+Proof. vm_compute. reflexivity. Qed.
+
+Example c19_witness_narrow_promotion :
+  run_backend BFiber KInt (sem_eval true) (CInt 8 true) [Call FAdd false false 127 0; Call PreDec false false 0 0] 127
+  = Some [(-2, 127, 127); (-3, -3, 0)].
+Proof. vm_compute. reflexivity. Qed.
+
+Example c19_witness_pointer_scaled :
+  run_backend BFiber KPtr (sem_eval false) (CPtr 4) [Call FAdd false false (-2) 0; Call PostInc false false 0 0; Call PreDec false false 0 0] 400
+  = Some [(392, 400, -2); (396, 392, 0); (392, 392, 0)].
+Proof. vm_compute. reflexivity. Qed.
+
+Example c19_witness_spurious_then_success :
+  run_backend BThread KInt (sem_eval false) (CInt 16 false)
+    [Call Cew1 false true 7 9; Call Cew1 false false 7 9; Call Ces2 true true 9 1] 7
+  = Some [(7, 0, 7); (9, 1, 7); (1, 1, 9)].
+Proof. vm_compute. reflexivity. Qed.
+
+Example c19_witness_flag :
+  run_backend BFiber KFlag (sem_eval false) CBool [Call TAS false false 0 0; Call TAS true false 0 0; Call Clear false false 0 0; Fence false] 0
+  = Some [(1, 0, 0); (1, 1, 0); (0, 0, 0); (0, 0, 0)].
+Proof. vm_compute. reflexivity. Qed.
+
+(* the single-order weak compare_exchange with order = release / acq_rel: the load that replaces a spuriously
+   failed exchange is relaxed / acquire *)
+Example c19_witness_failure_order :
+  exists f, In (Cew1, false, f) wrap_orders /\
+            f [Rel] = Some [(Load, [Rlx]); (Cew1, [Rel])] /\ f [AcqRel] = Some [(Load, [Acq]); (Cew1, [AcqRel])].
+Proof.
+  eexists. split.
+  - unfold wrap_orders. repeat (first [left; reflexivity | right]).
+  - split; reflexivity.
+Qed.
